@@ -266,8 +266,11 @@ type GenOpts struct {
 	MaxR       int
 }
 
-var nameStems = []string{"f%d.dat", "data%d.bin", "sub/f%d", "sub/deep/er/f%d.x", "with space %d.txt", "UPPER%d.DAT", "d%d/file", "a-%d_b.c.d", "v1..%d.dat", "rel..%d/data.bin", "wait...%d", "win\\f%d.dat", "a\\..\\b%d", "trail%d ", "dot%d.", "n%d", "abcdefg%d"}
-var par1Stems = []string{"f%d.dat", "data%d.bin", "with space %d.txt", "héllo%d.txt", "日本%d", "\U0001F600%d.bin", "UPPER%d.DAT", "clip%d-\U0001F600", "%d\U00010348\U0001F4BE", "x%dé", "v1..%d.dat", "wait...%d", "..%d", "dot%d."}
+// longTail makes names of 150 characters and more (NAME_MAX is 255)
+var longTail = strings.Repeat("abcdefghij", 15) + ".dat"
+
+var nameStems = []string{"f%d.dat", "data%d.bin", "sub/f%d", "sub/deep/er/f%d.x", "with space %d.txt", "UPPER%d.DAT", "d%d/file", "a-%d_b.c.d", "v1..%d.dat", "rel..%d/data.bin", "wait...%d", "win\\f%d.dat", "a\\..\\b%d", "trail%d ", "dot%d.", "n%d", "abcdefg%d", "report[%d].txt", "q%d?.dat", "star*%d.bin", "long%d-" + longTail}
+var par1Stems = []string{"f%d.dat", "data%d.bin", "with space %d.txt", "héllo%d.txt", "日本%d", "\U0001F600%d.bin", "UPPER%d.DAT", "clip%d-\U0001F600", "%d\U00010348\U0001F4BE", "x%dé", "v1..%d.dat", "wait...%d", "..%d", "dot%d.", "report[%d].txt", "long%d-" + longTail}
 // (the last ones contain an archive extension or a volume-like part
 // inside the name)
 var baseNames = []string{"set", "my set", "archive.v1", "x", "Set-2_b", "backup.part1", "x.par2", "a.vol01+02", "old.p01.new"}
@@ -391,6 +394,21 @@ func GenWorld(r *Run, o GenOpts) *World {
 			if !used && !strings.Contains(prev, "\\") {
 				name = cand
 				r.Probe("protected-files-sharing-a-base-name")
+			}
+		}
+		if i > 0 && t.Bool(1, 14, "name-extends-previous") {
+			// the previous file's name with a suffix that temporary or backup
+			// copies usually get: both are protected files of the set
+			cand := w.Files[i-1].Name + []string{".tmp", "~", ".bak", ".new", ".part", ".1"}[t.Draw(6, "suffix")]
+			used := false
+			for _, f := range w.Files {
+				if f.Name == cand {
+					used = true
+				}
+			}
+			if !used && len(filepath.Base(cand)) < 250 {
+				name = cand
+				r.Probe("protected-name-extends-another")
 			}
 		}
 		var size int
@@ -596,6 +614,9 @@ func GenWorld(r *Run, o GenOpts) *World {
 		for _, suffix := range []string{".tmp", "~", ".bak", ".part"} {
 			if t.Bool(1, 2, "ext") {
 				p := filepath.Join(w.Dir, f.Name+suffix)
+				if w.isProtectedPath(p) {
+					continue
+				}
 				data := expandContent(ckText, 41, 12, 4)
 				w.Bystanders[p] = data
 				w.Disk.Put(p, data)
